@@ -90,6 +90,16 @@ pub fn reader_frame(bt: &str) -> String {
     String::new()
 }
 
+/// `crate::module` of a symbol name (`<a::b::T as ..>::f` -> `a::b`)
+pub fn fn_module(f: &str) -> String {
+    let f = f.trim_start_matches('<');
+    let mut it = f.split("::");
+    match (it.next(), it.next()) {
+        (Some(a), Some(b)) if !a.is_empty() => format!("{a}::{b}"),
+        _ => String::new(),
+    }
+}
+
 thread_local! {
     static IN_REFUSAL: std::cell::Cell<bool> = const { std::cell::Cell::new(false) };
 }
@@ -99,7 +109,7 @@ fn refused(sz: usize) {
     if IN_REFUSAL.with(|g| g.replace(true)) {
         return;
     }
-    let lim = LIMIT.swap(usize::MAX, Relaxed); // the backtrace itself allocates
+    let saved = suspend(); // the backtrace itself allocates
     let f = reader_frame(&std::backtrace::Backtrace::force_capture().to_string());
     mark(b'A', CUR.load(Relaxed), sz);
     let fd = MARK_FD.load(Relaxed);
@@ -112,7 +122,7 @@ fn refused(sz: usize) {
     if let Ok(mut g) = REFUSED_BY.try_lock() {
         *g = f;
     }
-    LIMIT.store(lim, Relaxed);
+    resume(saved);
     IN_REFUSAL.with(|g| g.set(false));
 }
 
@@ -198,6 +208,18 @@ pub fn wall_ms() -> u64 {
         libc::clock_gettime(libc::CLOCK_MONOTONIC, &mut ts);
     }
     ts.tv_sec as u64 * 1000 + ts.tv_nsec as u64 / 1_000_000
+}
+
+/// Harness work inside a session (symbolising a stack): `suspend` lifts the session limit, `resume` restores
+/// it and discounts what the harness allocated meanwhile (symbol tables stay cached).
+pub fn suspend() -> (usize, usize) {
+    (LIMIT.swap(usize::MAX, Relaxed), LIVE.load(Relaxed))
+}
+
+pub fn resume(saved: (usize, usize)) {
+    let grown = LIVE.load(Relaxed).saturating_sub(saved.1);
+    BASE.fetch_add(grown, Relaxed);
+    LIMIT.store(saved.0, Relaxed);
 }
 
 /// start of a session: allocation of more than `limit` bytes beyond what is live now is refused
